@@ -10,9 +10,11 @@ namespace StyluaModel.C19
 open StyluaModel.Sched StyluaModel.Generated
 
 /-- **what the code does to EXIT_CODE** (translation tie): the diff handler is a single atomic
-`fetch_max(1)`, the logger a single `store(2)`, the end a `load`, and nothing else touches it -/
+`fetch_max(1)`, the logger a single `store(2)` (as is the JSON branch that reports a parse error
+without the logger), the end a `load`, and nothing else touches it -/
 theorem C19_ops :
-    diffHandlerOps = [.fetchMax 1] ∧ loggerOps = [.store 2] ∧ finalOps = [.load] ∧ totalOps = 3 := by
+    diffHandlerOps = [.fetchMax 1] ∧ loggerOps = [.store 2] ∧ jsonParseErrorOps = [.store 2] ∧
+    finalOps = [.load] ∧ totalOps = 4 := by
   decide
 
 /-- the effects, in the order in which they take effect: since every handler / logger
